@@ -274,6 +274,8 @@ def apply_action(mod, act, env, lib):
         out = mod.map_blocks(fn, x, y, drop_axis=dax, dtype=x.dtype)
         out._verif_blockfn2 = fn
         return out
+    if a == "Einsum":
+        return mod.einsum(act["pattern"], X(), env[act["y"] - 1])
     if a == "MapPlain":
         return X() * 2 if lib == "np" else X().map_blocks(block_double, dtype=X().dtype)
     if a == "BlockFirst":
@@ -800,7 +802,15 @@ def replay_one(beh, grids, observers=(), compute_all=True, opts=None, emit=None)
             with warnings.catch_warnings():
                 warnings.simplefilter("ignore")
                 if not inplace:
-                    d = apply_action(da, act, da_env, "da")
+                    cfg_last = (opts or {}).get("config_last") if k == last else None
+                    if cfg_last:
+                        # C09: the configuration in effect may change between the construction of an operand and of its consumer
+                        import dask
+
+                        with dask.config.set(cfg_last):
+                            d = apply_action(da, act, da_env, "da")
+                    else:
+                        d = apply_action(da, act, da_env, "da")
                     if any(d is o for o in da_env):
                         # identity operations (x[:], rechunk to the same chunks) return the very same object; the
                         # specification's handles are distinct collection objects, as after the user's x.copy()
